@@ -46,7 +46,7 @@ func checkC07(c *Ctx) {
 	c.Floor("C07.R4", 14)
 	c.Floor("C07.R1", 1)
 	c.Floor("C07.R2", 1)
-	c.Floor("C07.R3", 5)
+	c.Floor("C07.R3", 2)
 }
 
 // ---------------------------------------------------------------- R2
